@@ -976,9 +976,18 @@ impl Model {
             match len.checked_add(n) {
                 None => p.ev.push(Ev::Panic),
                 Some(total) => {
-                    // a representable but absurd request may legitimately abort (OOM) or
-                    // panic (capacity overflow): never issue it in-process.
-                    if self.info.size != 0 && total > (1 << 20) {
+                    let bytes = total.checked_mul(self.info.size);
+                    let too_big = match bytes {
+                        None => true,
+                        Some(b) => b > (isize::MAX as usize) - (self.info.align - 1),
+                    };
+                    if self.info.size != 0 && too_big {
+                        // the byte size is not representable in a valid layout: must be rejected
+                        // by a panic, never handed to the allocator (C10 / C18)
+                        p.ev.push(Ev::Panic);
+                    } else if self.info.size != 0 && total > (1 << 20) {
+                        // a representable but absurd request may legitimately abort (OOM):
+                        // never issued in-process (boundary probes run those in sub-processes)
                         p.r.op = Op::Nop;
                     }
                 }
